@@ -938,6 +938,12 @@ func main() {
 		{"skel_processFuncOut", "", "processFuncOut"},
 		{"skel_handleReader", "handler", "handleReader"},
 		{"skel_rpcError", "", "rpcError"},
+		{"skel_handle", "handler", "handle"},
+		{"skel_register", "handler", "register"},
+		{"skel_makeRpcFunc", "client", "makeRpcFunc"},
+		{"skel_paramMarshalJSON", "param", "MarshalJSON"},
+		{"skel_paramUnmarshalJSON", "param", "UnmarshalJSON"},
+		{"skel_doCall", "", "doCall"},
 	} {
 		f.defSkeleton(p, sk.name, sk.recv, sk.fn)
 	}
